@@ -331,6 +331,9 @@ class Interp:
             elif isinstance(a, (SList, list, tuple)):
                 t = sym.list_term(ctx, a)
                 terms.append(t); sorts.append(t.sort())
+            elif isinstance(a, dict):
+                m_ = sym.dict_to_smap(ctx, a, sym.TStr(), sym.TStr())
+                terms += [m_.has, m_.val]; sorts += [m_.has.sort(), m_.val.sort()]
             elif isinstance(a, SMap):
                 it = a.ident_term()
                 if it is not None:
@@ -361,6 +364,15 @@ class Interp:
                 self.depth -= 1
                 self.spec_mode -= 1
                 self.reveal_depth = 0
+        if ret == "map":
+            A = z3.ArraySort(z3.StringSort(), z3.BoolSort())
+            B = z3.ArraySort(z3.StringSort(), z3.StringSort())
+            fh = sym.ufun("spec_" + f.qualname + "_has", *sorts, A)
+            fv = sym.ufun("spec_" + f.qualname + "_val", *sorts, B)
+            return SMap(fh(*terms), fv(*terms), sym.TStr(), sym.TStr())
+        if ret == "path":
+            uf = sym.ufun("spec_" + f.qualname, *sorts, z3.StringSort())
+            return Rec("Path", {"s": sym.sstr(uf(*terms))})
         if ret.startswith("list:"):
             ety = {"str": sym.TStr(), "path": sym.TPath(), "int": sym.TInt()}[ret[5:]]
             lty = sym.TListVal(ety)
@@ -372,7 +384,7 @@ class Interp:
         rs = {"int": z3.IntSort(), "bool": z3.BoolSort(), "str": z3.StringSort()}[ret]
         uf = sym.ufun("spec_" + f.qualname, *sorts, rs)
         unbounded = [a for a in args if isinstance(a, (SV, SList, SMap)) and not sym.is_intlike(a) and not sym.is_boollike(a)]
-        if unbounded:
+        if unbounded or (getattr(nat, "__pyvc_opaque_always__", False) and not is_concrete(args)):
             return mk(SV(uf(*terms), ret))
         # bounded / concrete: the definition
         loc = self.bind_params(f, args, kwargs, f.gl)
@@ -434,6 +446,10 @@ class Interp:
         havoc_paths(self, {k: v for k, v in c.get("modifies", {}).items() if k not in skip}, loc)
         res = None
         rty = c.get("returns")
+        if c.get("result_is"):
+            # definitional contract: the result IS the value of a specification expression (no fresh symbol, no equation)
+            res = eval_clause(self, c, c["result_is"], loc, old, None)
+            rty = None
         if rty is not None:
             res = rty.fresh(self.ctx, f"{cname}.result")
             if isinstance(res, BStr):
